@@ -1,4 +1,5 @@
 import YaegiVerif.Proofs.C01Sim
+import YaegiVerif.Proofs.C01Slots
 import YaegiVerif.Expected.C01
 import YaegiVerif.Generated.C01
 /-
@@ -220,5 +221,177 @@ example : exLabel.wf = true ∧ specOutcome [] 60 exLabel st0 = some ⟨[0, 10],
   constructor
   · rfl
   · decide
+
+/-! ## Level 2 — frame slots (Model/CfgSlots.lean, Proofs/C01Slots.lean)
+
+  Every expression node has a frame slot of its own, operator nodes are closures reading operands
+  (slot or constant) and writing a slot, and cfg.go's shortcuts write results straight into the
+  destination: `x = a op b` (top operator node writes x, the assign node is a `nop`), `x = f(args)` (the
+  call writes x), `return a op b` (top operator node writes the result slot). -/
+
+def machineOutcome2 : MState2 → Outcome
+  | .run _ _ out _ => ⟨out, false⟩
+  | .done out => ⟨out, false⟩
+  | .panicked out => ⟨out, true⟩
+
+/-- related states have the same observable outcome -/
+theorem outcome_rel (nv : Nat) (code2 : List Instr2) (A : Nat → Nat) (m : MState) (m2 : MState2)
+    (h : Rel nv code2 A m m2) : machineOutcome2 m2 = machineOutcome m := by
+  cases m with
+  | run pc s σ =>
+    cases m2 with
+    | run pc2 fr out σ2 => obtain ⟨_, _, ho, _⟩ := Rel_run.1 h; simp [machineOutcome, machineOutcome2, ho]
+    | panicked _ => exact absurd h (by simp [Rel])
+    | done _ => exact absurd h (by simp [Rel])
+  | panicked s =>
+    cases m2 with
+    | run _ _ _ _ => exact absurd h (by simp [Rel])
+    | panicked out => simp [machineOutcome, machineOutcome2, Rel_panicked.1 h]
+    | done _ => exact absurd h (by simp [Rel])
+  | done s =>
+    cases m2 with
+    | run _ _ _ _ => exact absurd h (by simp [Rel])
+    | panicked _ => exact absurd h (by simp [Rel])
+    | done out => simp [machineOutcome, machineOutcome2, Rel_done.1 h]
+
+/-- **expressions at the slot level.** For every expression over variables `< nv`, every first free
+    temporary `tmp ≥ nv`, every destination hint (any slot at all, a variable of the expression included)
+    and every frame: the operator closures of `compileExpr e tmp dst` panic iff `e.eval` is `none`;
+    otherwise they end with the returned operand denoting `e.eval`, and every variable slot other than
+    `dst` is unchanged. -/
+theorem expr_slots (nv : Nat) (e : Expr) (tmp : Nat) (dst : Option Nat) (fr : Nat → Val)
+    (hv : e.varsLt nv = true) (ht : nv ≤ tmp) :
+    (∀ v, e.eval ⟨fr, []⟩ = some v →
+      ∃ fr', evalPre (compileExpr e tmp dst).1 fr = some fr' ∧ (compileExpr e tmp dst).2.1.get fr' = v ∧
+        ∀ i, i < nv → dst ≠ some i → fr' i = fr i) ∧
+    (e.eval ⟨fr, []⟩ = none ↔ evalPre (compileExpr e tmp dst).1 fr = none) := by
+  have spec := compileExpr_spec nv e tmp dst fr hv ht
+  refine ⟨?_, spec.pan, ?_⟩
+  · intro v h
+    obtain ⟨fr', e1, g1, p1⟩ := spec.val v h
+    exact ⟨fr', e1, g1, fun i hi hne => p1 i (Or.inl (by omega)) hne⟩
+  · intro h
+    cases he : e.eval ⟨fr, []⟩ with
+    | none => rfl
+    | some v =>
+      obtain ⟨fr', e1, _, _⟩ := spec.val v he
+      rw [h] at e1
+      exact absurd e1 (by simp)
+
+/-- **the slot level refines level 1.** For every level-1 graph over variables `< nv` (any graph, not
+    only compiled ones), under the relation "same node through `addrOf`, frames agree on the variable
+    slots, same output, stacks of suspended callers related pointwise":
+    (1) one iteration of the level-1 loop is matched by at least one iteration of the slot-level loop
+    over `expand nv code`; (2) so is every finite run; (3) where level 1 halts, level 2 halts, with the
+    same output and the same kind of end. -/
+theorem slots_refine (nv : Nat) (code : List Instr) (hok : AllOK nv code) :
+    (∀ (m m' : MState) (m2 : MState2), Rel nv (expand nv code) (addrOf nv code) m m2 → step code m = some m' →
+      ∃ n m2', steps2 (expand nv code) (n + 1) m2 = some m2' ∧ Rel nv (expand nv code) (addrOf nv code) m' m2') ∧
+    (∀ (n : Nat) (m m' : MState) (m2 : MState2), Rel nv (expand nv code) (addrOf nv code) m m2 →
+      steps code n m = some m' →
+      ∃ k m2', n ≤ k ∧ steps2 (expand nv code) k m2 = some m2' ∧ Rel nv (expand nv code) (addrOf nv code) m' m2') ∧
+    (∀ (m : MState) (m2 : MState2), Rel nv (expand nv code) (addrOf nv code) m m2 → step code m = none →
+      step2 (expand nv code) m2 = none ∧ machineOutcome2 m2 = machineOutcome m) :=
+  ⟨step_sim nv code _ _ hok (expand_block nv code),
+   steps_sim nv code _ _ hok (expand_block nv code),
+   fun m m2 hr hs => ⟨halt_sim nv code _ _ (expand_none nv code) m m2 hr hs, outcome_rel _ _ _ m m2 hr⟩⟩
+
+/-- the start states correspond -/
+theorem start_rel (nv : Nat) (code : List Instr) (fr : Nat → Val) (out : List Val) :
+    Rel nv (expand nv code) (addrOf nv code) (.run 0 ⟨fr, out⟩ []) (.run 0 fr out []) :=
+  Rel_run.2 ⟨(addrOf_zero nv code).symm, fun _ _ => rfl, rfl, .nil⟩
+
+/-- **End to end, down to frame slots.** For every well-formed program whose variables are `< nv`,
+    every start frame, every output so far and every fuel: if the Go semantics terminates with outcome
+    `o`, the slot-level execution loop over the expanded graph of the compiled program — operator
+    closures writing their own temporaries, the top node of a right-hand side writing the destination
+    slot directly, calls writing their result into the destination slot — halts with outcome `o`. -/
+theorem compile_correct_slots (nv : Nat) (fs : Funs) (p : Stmt) (fr : Nat → Val) (out0 : List Val) (fuel : Nat)
+    (o : Outcome) (hwf : p.wf = true) (hfw : Funs.wf fs)
+    (hv : p.varsLt nv = true) (hfv : fs.all (Stmt.varsLt nv) = true)
+    (h : specOutcome fs fuel p ⟨fr, out0⟩ = some o) :
+    ∃ n final, runFuel2 (expand nv (compileProg fs p)) n (.run 0 fr out0 []) = some final ∧
+      machineOutcome2 final = o := by
+  obtain ⟨n, final, hrun, hout⟩ := compile_correct fs p ⟨fr, out0⟩ fuel o hwf hfw h
+  obtain ⟨k, hk, hfin⟩ := runFuel_steps _ n _ final hrun
+  obtain ⟨_, hsteps, hhalt⟩ := slots_refine nv (compileProg fs p) (compileProg_varsLt nv fs p hv hfv)
+  obtain ⟨k2, m2', _, hs2, hr2⟩ := hsteps k _ final _ (start_rel nv _ fr out0) hk
+  obtain ⟨hstop, hsame⟩ := hhalt final m2' hr2 hfin
+  exact ⟨k2 + 1, m2', runFuel2_of_steps2 _ _ _ _ hs2 hstop, by rw [hsame, hout]⟩
+
+/-- the slot-level machine is deterministic too -/
+theorem run2_deterministic (code : List Instr2) (n : Nat) (m a b : MState2)
+    (ha : runFuel2 code n m = some a) (hb : runFuel2 code n m = some b) : a = b := by
+  rw [ha] at hb; exact Option.some.inj hb
+
+/-- the outcome of a slot-level run of a whole program from the all-zero frame -/
+def slotOutcome (nv fuel : Nat) (fs : Funs) (p : Stmt) : Option Outcome :=
+  (runFuel2 (expand nv (compileProg fs p)) fuel (.run 0 (fun _ => 0) [] [])).map machineOutcome2
+
+/-- non-vacuity: `x = x*2 + x` — the destination is also an operand of the top node and of a child.
+    The child `x*2` gets a temporary (slot 2; slot 1 is the result slot), the top node writes x. -/
+example : blockPre 1 (.assign 0 (.bin .add (.bin .mul (.var 0) (.lit 2)) (.var 0)) 7) =
+    [.op 2 .mul (.slot 0) (.const 2), .op 0 .add (.slot 2) (.slot 0)] := by decide
+
+example : blockTail 1 id 9 (.assign 0 (.bin .add (.bin .mul (.var 0) (.lit 2)) (.var 0)) 7) = [.nop 7] ∧
+    blockTail 1 id 9 (.assign 0 (.var 1) 7) = [.mov 0 (.slot 1) 7] ∧
+    blockTail 1 id 9 (.assign 0 (.lit 5) 7) = [.mov 0 (.const 5) 7] := by decide
+
+def exSelf : Stmt :=
+  .seq (.assign 0 (.lit 3))
+    (.seq (.assign 0 (.bin .add (.bin .mul (.var 0) (.lit 2)) (.var 0)))
+      (.seq (.assign 0 (.bin .sub (.neg (.var 0)) (.bin .mul (.bin .add (.var 0) (.lit 1)) (.var 0))))
+        (.print (.var 0))))
+
+example : exSelf.wf = true ∧ exSelf.varsLt 1 = true ∧
+    specOutcome [] 20 exSelf st0 = some ⟨[-99], false⟩ ∧ slotOutcome 1 40 [] exSelf = some ⟨[-99], false⟩ := by
+  refine ⟨rfl, rfl, ?_, ?_⟩ <;> decide
+
+/-- a recursive call whose arguments are operator nodes (each in a temporary of its own), the result
+    written straight into the caller's variable, `return` of an operator node through the result slot -/
+def exFact2 : Stmt :=
+  .ite (.cmp .le (.var 0) (.lit 0)) (.ret (.bin .add (.var 1) (.lit 0)))
+    (.seq (.call 1 0 [.bin .sub (.var 0) (.lit 1), .bin .mul (.var 1) (.var 0)]) (.ret (.var 1)))
+
+example : exCallMain.varsLt 2 = true ∧ [exFact2].all (Stmt.varsLt 2) = true ∧ exFact2.wf = true ∧
+    specOutcome [exFact2] 40 exCallMain st0 = some ⟨[120], false⟩ ∧
+    slotOutcome 2 200 [exFact2] exCallMain = some ⟨[120], false⟩ := by
+  refine ⟨rfl, rfl, rfl, ?_, ?_⟩ <;> decide
+
+example : blockPre 2 (.call 1 30 [.bin .sub (.var 0) (.lit 1), .bin .mul (.var 1) (.var 0)] 8) =
+      [.op 3 .sub (.slot 0) (.const 1), .op 4 .mul (.slot 1) (.slot 0)] ∧
+    blockTail 2 id 12 (.call 1 30 [.bin .sub (.var 0) (.lit 1), .bin .mul (.var 1) (.var 0)] 8) =
+      [.call 1 30 [.slot 3, .slot 4] 13, .nop 8] ∧
+    blockPre 2 (.ret (.bin .add (.var 1) (.lit 0))) = [.op 2 .add (.slot 1) (.const 0)] ∧
+    blockTail 2 id 5 (.ret (.bin .add (.var 1) (.lit 0))) = [.ret (.slot 2)] := by decide
+
+/-- a zero divisor inside a nested operator panics the slot-level run after the output so far -/
+example : slotOutcome 1 40 [] (.seq (.print (.lit 5)) (.assign 0 (.bin .add (.lit 1) (.bin .quo (.lit 1) (.var 0))))) =
+    some ⟨[5], true⟩ := by decide
+
+/-- the labelled-loop example runs to the same output at the slot level -/
+example : exLabel.varsLt 2 = true ∧ slotOutcome 2 400 [] exLabel = some ⟨[0, 10], false⟩ := by
+  refine ⟨rfl, ?_⟩; decide
+
+/-- the mis-optimisation the side condition excludes: handing the destination hint DOWN to the left
+    child (here `x+1` of `x = (x+1)*x` written straight into x) -/
+def compileExprDown : Expr → (tmp : Nat) → (dst : Option Nat) → List Pre × Operand × Nat
+  | .bin o a b, tmp, dst =>
+    let ra := compileExprDown a tmp dst            -- wrong: the child inherits the destination
+    let rb := compileExprDown b ra.2.2 none
+    match dst with
+    | some d => (ra.1 ++ rb.1 ++ [.op d o ra.2.1 rb.2.1], .slot d, rb.2.2)
+    | none => (ra.1 ++ rb.1 ++ [.op rb.2.2 o ra.2.1 rb.2.1], .slot rb.2.2, rb.2.2 + 1)
+  | e, tmp, dst => compileExpr e tmp dst
+
+/-- **witness**: with x = 3, `x = (x+1)*x` is 12 in Go and in the model (`x+1` goes to a temporary), but
+    16 if `x+1` is written into x before the multiplication reads x: only the top node of a right-hand
+    side may take the destination slot -/
+theorem dst_down_witness :
+    (Expr.bin .mul (.bin .add (.var 0) (.lit 1)) (.var 0)).eval ⟨fun _ => 3, []⟩ = some 12 ∧
+    (evalPre (compileExpr (.bin .mul (.bin .add (.var 0) (.lit 1)) (.var 0)) 2 (some 0)).1 (fun _ => 3)).map (· 0)
+      = some 12 ∧
+    (evalPre (compileExprDown (.bin .mul (.bin .add (.var 0) (.lit 1)) (.var 0)) 2 (some 0)).1 (fun _ => 3)).map (· 0)
+      = some 16 := by decide
 
 end YaegiVerif.Props.C01
